@@ -1,0 +1,26 @@
+//go:build verif
+
+// Contracts for the verif build tag: comment-only, read by /verif/engine (govc).
+package failover
+
+//@ # ---- C12 / C13: the failover writer.
+//@ # C12: once the recursion firewall has rejected the request tree (any budget, not only outbound queries) no fallback
+//@ # query is started: the first fallback exchange happens only after RecursionWorkEnforcementError said nil, and each
+//@ # fallback attempt is debited as an outbound query of the same tree.
+//@ # C13: the fallback asks exactly the question that failed - name, type AND class - in the client's CD partition, so
+//@ # a failure it reports is recorded for that question and no other; its reply carries the client's ID and CD.
+//@ func (*ResponseWriter).WriteMsg
+//@   abstract
+//@   nosafety all pre
+//@   assert at call (*internal/dnsclient.Client).Exchange#1: lastret("middleware.RecursionWorkEnforcementError") == nil && calls("middleware.RecursionWorkEnforcementError") >= 1 && arg2 == req
+//@   assert at call (*github.com/miekg/dns.Msg).SetQuestion#1: arg1 == m.Question[0].Name && arg2 == m.Question[0].Qtype && lastret("middleware.RecursionWorkEnforcementError") == nil
+//@   assert at store dns.Question.Qclass#1: value == m.Question[0].Qclass
+//@   assert at store dns.MsgHdr.CheckingDisabled#1: value == m.CheckingDisabled
+//@   assert at store dns.MsgHdr.CheckingDisabled#2: value == m.CheckingDisabled
+//@   assert at store dns.MsgHdr.Id#1: value == m.Id
+//@   assert at call (*middleware/failover.ResponseWriter).writeRecursionWorkFailure#1: lastret("middleware.RecursionWorkEnforcementError") != nil && calls("(*internal/dnsclient.Client).Exchange") == 0
+//@
+//@ func (*ResponseWriter).WriteMsg$1
+//@   abstract
+//@   nosafety all pre
+//@   assert at call middleware.DebitRecursionWork#1: lastret("middleware.BeginResolutionAttempt") == nil && arg1 == middleware.RecursionWorkOutboundQuery
